@@ -3,6 +3,7 @@ package multiparty
 import (
 	"fmt"
 	"io"
+	"slices"
 
 	"github.com/tuneinsight/lattigo/v6/core/rlwe"
 	"github.com/tuneinsight/lattigo/v6/ring"
@@ -151,10 +152,24 @@ func (cmb Combiner) GenAdditiveShare(activesPoints []ShamirPublicPoint, ownPoint
 		return fmt.Errorf("cannot GenAdditiveShare: Not enough active players to combine threshold shares")
 	}
 
+	// The interpolation is done over the first threshold points: they must be distinct parties, and
+	// the caller must be one of them (its share is combined with the factors of the others).
+	actives := activesPoints[:cmb.threshold]
+
+	if !slices.Contains(actives, ownPoint) {
+		return fmt.Errorf("cannot GenAdditiveShare: ownPoint is not among the %d active points that are combined", cmb.threshold)
+	}
+
+	for i := range actives {
+		if slices.Contains(actives[:i], actives[i]) {
+			return fmt.Errorf("cannot GenAdditiveShare: active point %d is listed twice: not enough distinct active players", actives[i])
+		}
+	}
+
 	prod := cmb.tmp2
 	copy(prod, cmb.one)
 
-	for _, active := range activesPoints[:cmb.threshold] {
+	for _, active := range actives {
 		//Lagrange Interpolation with the public threshold key of other active players
 		if active != ownPoint {
 			cmb.tmp1 = cmb.lagrangeCoeffs[active]
